@@ -18,6 +18,7 @@ CONSTANTS
     ChainSeq,    \* contracts of the chain, ascending last-trading time (<<>> when there is no chain)
     ChainLtd,    \* their last-trading times (seconds)
     ChainExp,    \* their expiry times (seconds)
+    ChainOffset, \* month offset of the chain (0: the front contract, 1: the next one ...)
     YearLen,     \* seconds per model year when interest accrues (stamps are multiples of it), 0 when no interest
     Thr,         \* rebalancing threshold (Rat)
     MaxSteps,
@@ -35,7 +36,8 @@ Ev(i) == [id |-> i, t |-> Events[i].t, kind |-> Events[i].kind, c |-> Events[i].
           bid |-> Events[i].bid, ask |-> Events[i].ask]
 
 \* the chain resolves to the listed contract with the earliest last-trading time strictly later than now
-LeadIdx(now) == Cardinality({i \in 1..Len(ChainLtd) : ChainLtd[i] <= now}) + 1
+FrontIdx(now) == Cardinality({i \in 1..Len(ChainLtd) : ChainLtd[i] <= now}) + 1
+LeadIdx(now) == FrontIdx(now) + ChainOffset
 LeadOk(now) == LeadIdx(now) <= Len(ChainSeq)
 
 \* TradingEnv.notify restricted to what matters here: clock and books (new-date notifications are Env.tla's)
